@@ -188,6 +188,13 @@ func runC18(c *core.Ctx) {
 		}
 		c.Feature("large-feeds-size-sweep")
 	}
+	long := c.Index%12 == 9
+	if long {
+		callsPerG = 8
+		if G > 4 {
+			G = 4
+		}
+	}
 	var rtBufs []*core.ROBuf
 	for i := 0; i < 6; i++ {
 		msg := c06Feed(r, c.Index*8+i)
@@ -198,6 +205,20 @@ func runC18(c *core.Ctx) {
 				sizes = []int{256, 300, 257, 260, 256, 300}
 			}
 			msg = c06FeedLarge(r, c.Index*8+i, sizes[i])
+		}
+		if long {
+			// long values: one trip with hundreds of stop time updates and a vehicle with a 20 KiB label in every input, so
+			// that hashing / dumping a single value from several goroutines runs through any size-triggered scratch path
+			n := []int{300, 520, 330, 400, 350, 600}[i]
+			tu := &gtfsrt.TripUpdate{Trip: &gtfsrt.TripDescriptor{TripId: rgen.S(fmt.Sprintf("long-trip-%d", i)), RouteId: rgen.S("LONG")},
+				Vehicle: &gtfsrt.VehicleDescriptor{Id: rgen.S(fmt.Sprintf("long-veh-%d", i)), Label: rgen.S(strings.Repeat("L", 20000+i))}}
+			for k := 0; k < n; k++ {
+				tu.StopTimeUpdate = append(tu.StopTimeUpdate, rgen.GenStopTimeUpdate(r, k))
+			}
+			msg.Entity = append(msg.Entity, &gtfsrt.FeedEntity{Id: rgen.S(fmt.Sprintf("long-%d", i)), TripUpdate: tu})
+			if i == 0 {
+				c.Feature("long-values:trip-with-300+-updates-and-20KiB-label")
+			}
 		}
 		rb, err := core.NewROBuf(rgen.Marshal(msg))
 		if err != nil {
@@ -336,6 +357,7 @@ func runC18(c *core.Ctx) {
 
 	// read phase: results returned by different calls are read from several goroutines at once
 	jrnl := c18Journal(rtResults)
+	hashed := make([][]c18Hashed, G)
 	for g := 0; g < G; g++ {
 		wg.Add(1)
 		gr := r.Fork()
@@ -350,10 +372,25 @@ func runC18(c *core.Ctx) {
 					for i := range rt.Trips {
 						rt.Trips[i].Hash(h)
 						_ = rt.Trips[i].GetVehicle()
+						if i < 10 {
+							// the digest of this value, taken while others hash too; recomputed alone afterwards
+							hh := sha256.New()
+							rt.Trips[i].Hash(hh)
+							var d [32]byte
+							copy(d[:], hh.Sum(nil))
+							hashed[g] = append(hashed[g], c18Hashed{trip: &rt.Trips[i], sum: d})
+						}
 					}
 					for i := range rt.Vehicles {
 						rt.Vehicles[i].Hash(h)
 						_ = rt.Vehicles[i].GetTrip()
+						if i < 10 {
+							hh := sha256.New()
+							rt.Vehicles[i].Hash(hh)
+							var d [32]byte
+							copy(d[:], hh.Sum(nil))
+							hashed[g] = append(hashed[g], c18Hashed{veh: &rt.Vehicles[i], sum: d})
+						}
 					}
 					_ = canon.DumpRealtime(rt, true)
 					evals.Add(1)
@@ -376,6 +413,24 @@ func runC18(c *core.Ctx) {
 		}(g)
 	}
 	wg.Wait()
+	// every digest taken during the concurrent read phase equals the digest of the same value hashed alone
+	for g := range hashed {
+		for _, x := range hashed[g] {
+			hh := sha256.New()
+			kind := "trip"
+			if x.trip != nil {
+				x.trip.Hash(hh)
+			} else {
+				x.veh.Hash(hh)
+				kind = "vehicle"
+			}
+			cmps.Add(1)
+			if string(hh.Sum(nil)) != string(x.sum[:]) {
+				report("C18|concurrent-hash-differs|"+kind, "a "+kind+" hashed while other goroutines were hashing gives a different digest than the same value hashed alone", nil)
+				break
+			}
+		}
+	}
 
 	c.Eval(int(evals.Load()))
 	c.Cmp(int(cmps.Load()))
@@ -436,6 +491,12 @@ func runC18(c *core.Ctx) {
 }
 
 // c18Journal builds a few journals from parsed NYCT feeds for the concurrent export.
+type c18Hashed struct {
+	trip *gtfs.Trip
+	veh  *gtfs.Vehicle
+	sum  [32]byte
+}
+
 func c18Journal(results [][]*gtfs.Realtime) []*journal.Journal {
 	var feeds []*gtfs.Realtime
 	for _, rs := range results {
